@@ -6,15 +6,6 @@ Open Scope string_scope.
 
 Definition R (s : string) : string := repr_body SQ s.
 
-Definition seg_of (it : witem) : seg :=
-  match it with
-  | IField ws k v => SField ws k v
-  | IRefs ws k o sep c ids => SRefs ws k o sep c ids
-  | IChildren ws k o sep c ns => SChildren ws k o sep c (List.length ns)
-  | IRaw s => SField "" "" ""            (* excluded by wf_node *)
-  | IInert s => SField "" "" ""          (* excluded by wf_node *)
-  end.
-
 (* children["child_" + str(len(children))] = child *)
 Definition number_children (vals : list pv) : list (string * pv) :=
   fold_left (fun cs v => upsert String.eqb ("child_" ++ dec (List.length cs)) v cs) vals [].
@@ -49,21 +40,9 @@ Definition top_pv (n : wnode) : pv :=
         (number_children [body_pv its])
   end.
 
-(* domain of the text-level theorem: plain keys, values, ids; layout strings made of line breaks, tabs, blanks, ( ) , ;
-   no free text with braces or separators (IRaw / IInert), no apostrophe *)
-Fixpoint wf_node (n : wnode) : bool :=
+(* ... the same when the element NAME may hold colons (top level only: UmlBlobDefs.top_head) *)
+Definition top_pv_c (n : wnode) : pv :=
   match n with
-  | WNode id nm ty its tl =>
-      headok id nm ty && wsok tl
-      && (fix items (l : list witem) : bool :=
-            match l with
-            | [] => true
-            | it :: r =>
-                match it with
-                | IRaw _ | IInert _ => false
-                | IChildren ws k o sep c ns =>
-                    seg_ok (seg_of it) && (fix each (l : list wnode) : bool := match l with [] => true | x :: t => wf_node x && each t end) ns
-                | _ => seg_ok (seg_of it)
-                end && items r
-            end) its
+  | WNode id nm ty its _ => with_children (top_head id nm ty) (number_children [body_pv its])
   end.
+
